@@ -251,4 +251,52 @@ theorem decodeInt_encodeNat (w : Wrap) (hk : w.kind ≠ .unknown) (hl : w.minLen
   | nil => exact absurd hf sp.1
   | cons _ _ => simp [toIntRes]
 
+/-- the strconv parsers never panic -/
+theorem runParser_no_panic (p : Parser) (s : Bytes) : runParser p s ≠ .panic := by
+  have hu : ∀ base bits n t, parseUintLoop base bits n t ≠ .panic := by
+    intro base bits n t
+    induction t generalizing n with
+    | nil => simp [parseUintLoop]
+    | cons c cs ih =>
+      simp only [parseUintLoop]
+      split
+      · simp
+      · split
+        · simp
+        · split
+          · simp
+          · exact ih _
+  have hpu : ∀ base bits t, parseUint base bits t ≠ .panic := by
+    intro base bits t
+    cases t with
+    | nil => simp [parseUint]
+    | cons c cs => simp only [parseUint]; exact hu _ _ _ _
+  have hs : ∀ bits neg (r : Res Nat), r ≠ .panic → signedOf bits neg r ≠ .panic := by
+    intro bits neg r hr
+    cases r with
+    | panic => exact absurd rfl hr
+    | err e => simp [signedOf]
+    | ok un => simp only [signedOf]; split <;> split <;> simp
+  cases p with
+  | atoi =>
+    simp only [runParser, atoi]
+    cases s with
+    | nil => simp [parseInt]
+    | cons c cs =>
+      simp only [parseInt]
+      split
+      · exact hs _ _ _ (hpu _ _ _)
+      · split
+        · exact hs _ _ _ (hpu _ _ _)
+        · exact hs _ _ _ (hpu _ _ _)
+  | parseUint64 =>
+    simp only [runParser]
+    cases h : parseUint 10 64 s with
+    | panic => exact absurd h (hpu _ _ _)
+    | err e => simp [toIntRes]
+    | ok n => simp [toIntRes]
+  | parseDuration => simp [runParser]
+  | fromString => simp [runParser]
+  | unknown => simp [runParser]
+
 end Nv.C20
